@@ -29,7 +29,7 @@ ASSUMPTIONS = [
 ]
 CONFIG = {
     "quick": {"examples": 200, "shards": 16, "shrink_s": 40, "time_budget_s": 270},
-    "thorough": {"examples": 4000, "shards": 16, "shrink_s": 200, "time_budget_s": 1500},
+    "thorough": {"examples": 8000, "shards": 16, "shrink_s": 200, "time_budget_s": 1500},
 }
 
 
